@@ -257,10 +257,25 @@ def rand_string(rng, toktable):
 
 
 # ---- (3) trees -------------------------------------------------------------------------------------------------
+STYLES = ["bold", "red on blue", "dim", "not bold", "none", "#ff0000", "color(9)", "italic underline", "on default", "link https://x.y"]
+STYLE_OPTS = {"panel": ["style", "border_style"], "padding": ["style"], "align": ["style"], "rule": ["style"],
+              "table": ["style", "border_style", "header_style", "footer_style", "title_style", "caption_style"]}
+
+
 def stress(rng, t, G):
-    """valid options only, pushed to where the arithmetic is thin: fixed widths beside / beyond the terminal, nothing inside"""
+    """valid options only, pushed to where the arithmetic is thin: fixed widths beside / beyond the terminal, nothing inside;
+    style options given the way a user gives them (strings) on every built-in that takes one"""
     for _, n in list(G.subtrees(t)):
         k = n["k"]
+        if k in STYLE_OPTS and rng.random() < 0.35:
+            n["sty"] = {o: rng.choice(STYLES) for o in STYLE_OPTS[k] if rng.random() < 0.5}
+            if k == "table":
+                if rng.random() < 0.4:
+                    n["sty"]["row_styles"] = [rng.choice(STYLES) for _ in range(rng.randint(1, 3))]
+                n["sty"]["rows"] = {str(i): rng.choice(STYLES) for i in range(len(n["rows"])) if rng.random() < 0.5}
+                for col in n["cols"]:
+                    if rng.random() < 0.4:
+                        col["sty"] = {o: rng.choice(STYLES) for o in ("style", "header_style", "footer_style") if rng.random() < 0.5}
         if k in ("panel", "align", "constrain", "columns", "table") and rng.random() < 0.35:
             n["w"] = rng.choice([1, 2, 3, 5, 9, 13, 30, 60, 250])
         if k == "table":
